@@ -10,7 +10,7 @@ CH = "CrossHair (symbolic execution of the repository's Python with z3), per-con
 CHECKS = {
     "C01": dict(
         technique="bounded SMT (z3) equivalence between the SQL regenerated from the real transpiler and a VTL reference interpreter over symbolic tables; models replayed through run()",
-        text="For ~350 (quick) / ~390 (thorough) script templates covering every element-wise operator group at dataset/dataset (equal and nested identifier sets), "
+        text="For ~500 script templates (incl. outer x inner nesting products over mono-measure, two-measure and String shapes, and measure-renaming operators used as operands) covering every element-wise operator group at dataset/dataset (equal and nested identifier sets), "
              "dataset/scalar, scalar/dataset, component/component and component/scalar level plus depth-2/3 compositions, the SQL the real transpiler emits "
              "(macros inlined from init.sql) is evaluated symbolically over ALL input tables of 2 (quick) / 3 (thorough) datapoints per dataset with nullable measures, "
              "and z3 decides that its result equals the VTL reference (matching on common identifiers, per-measure application, null propagation, Kleene logic, "
@@ -19,7 +19,7 @@ CHECKS = {
              "round/ln/exp/... are uninterpreted symbols shared with the reference. More than 3 datapoints per dataset is outside.",
         ref="3 C01", engine="sqlsmt"),
     "C02": dict(technique='bounded SMT (z3) equivalence between the SQL regenerated from the real transpiler and a VTL reference interpreter over symbolic tables; models replayed through run()', engine="sqlsmt", ref="3 C02", note='Trusted: sqlglot + vt/sqlsmt SQL semantics (self-checked per template against real DuckDB on random concrete tables on every run), z3, hand-built AST shapes. Reals stand for DOUBLE.',
-        text="Every single clause (filter, calc, keep, drop, rename, sub, unpivot), every well-typed chain of two (thorough: three), clauses applied to a join result and to the sub-query of every other operator family (~200 templates): the emitted SQL is "
+        text="Every single clause (filter, calc, keep, drop, rename, sub, unpivot), every well-typed chain of two (thorough: three), clauses applied to a join result and to the sub-query of every other operator family (~300 templates): the emitted SQL is "
              "evaluated symbolically over all input tables of 2 (thorough 3) datapoints and z3 decides equality with the reference (filter keeps TRUE rows only; calc adds/overwrites the "
              "named components; keep/drop/rename/sub touch only the listed components; sub fixes and removes identifiers). unsat = holds within the bound."),
     "C03": dict(technique='bounded SMT (z3) equivalence between the SQL regenerated from the real transpiler and a VTL reference interpreter over symbolic tables; models replayed through run()', engine="sqlsmt", ref="3 C03", note='Trusted: sqlglot + vt/sqlsmt SQL semantics (self-checked per template against real DuckDB on random concrete tables on every run), z3, hand-built AST shapes. Reals stand for DOUBLE.' + " var/stddev are shared symbols over (count, sum, sum of squares); median is defined by counting with witnesses.",
@@ -160,7 +160,7 @@ CHECKS = {
         engine="sqlsmt", ref="3 C32", category="model_checking",
         note="Partial. Trusted: the evaluator's error-event model (self-checked per template against real DuckDB, incl. extreme integers; events over-approximate because DuckDB evaluates projections lazily - every reachable site is confirmed on the real engine), z3. "
              "The exception class is observed on one witness per (template, site); DOUBLE overflow, out-of-memory, scalar results, file outputs and the parser are outside. Un-encodable SQL is probed concretely (auxiliary).",
-        text="For every template of C01-C08 and C28 plus error-oriented templates (~820 scripts) with Integer inputs over the whole int64 range, z3 decides per runtime-error site whether a load-valid input reaches it "
+        text="For every template of C01-C08 and C28 plus error-oriented templates (~1300 scripts) with Integer inputs over the whole int64 range, z3 decides per runtime-error site whether a load-valid input reaches it "
              "(unsat = the site cannot fire within the row bound); for a reachable site the witness is run through the real run() and must raise a VTLEngineException with a catalogued code. The output "
              "representation macros (4 formats x 6 indicators, every year 1000-9999 and valid number) are decided at character level and replayed through both fetch_result and cast(.., string)."),
 }
